@@ -88,8 +88,16 @@ with item :=
 | ITag (t : N)
 | IForm (f : form).
 
-(* a program: the bodies of the user functions f0, f1, ... (defun fi () body...) and the main form *)
-Definition prog := (list (list form) * form)%type.
+(* a scope of the chain InBlock walks: (Scope.Block, Scope.Name) *)
+Definition scope := (bool * N)%type.
+
+(* a user function (defun fi () body...): where the defun is written and the body.  The defining context is
+   the list of scopes around the defun form, innermost first: (false, 0) for a (let ((c 1)) ...), (true, b) for
+   a (block b ...).  defun.go gives the function the scope it is evaluated in as its Closure whenever that
+   scope has a parent, i.e. whenever the context is not empty; a defun at the top level has no closure. *)
+Definition def := (list scope * list form)%type.
+(* a program: the user functions f0, f1, ... (all defined before the main form runs) and the main form *)
+Definition prog := (list def * form)%type.
 
 (* ---- state ------------------------------------------------------------------------------------- *)
 (* ETr is what the harness observes; EEnter/ECleanup are ghost events of the model (the protected form of
@@ -144,8 +152,10 @@ Fixpoint after_tag (t : N) (items : list item) : list item :=
 (* ---- M ----------------------------------------------------------------------------------------- *)
 Inductive mres := MVal (v : value) | MErr (c : cls) | MHang | MOOF.
 
-(* a scope of the chain InBlock walks: (Scope.Block, Scope.Name) *)
-Definition scope := (bool * N)%type.
+(* scope.go InBlock: "if s.Block && name == s.Name { return true }; for _, p := range s.parents { if p.InBlock(name)
+   { return true } }".  The chain is the scope itself, then what its parents reach.  Lambda.Call gives the call
+   scope of a function with a closure TWO parents, [closure, caller]: its chain is itself, the defining
+   context, the callers. *)
 Definition in_block (sc : list scope) (t : N) : bool := existsb (fun s => fst s && N.eqb (snd s) t) sc.
 
 (* what a statement loop does with one pass over its statements *)
@@ -248,7 +258,7 @@ Definition m_catch (t : N) (r : mres * state) : mres * state :=
   end.
 
 Section M.
-  Variable defs : list (list form).
+  Variable defs : list def.
 
   Fixpoint meval (fuel : nat) (sc : list scope) (tb : bool) (f : form) (st : state) {struct fuel} : mres * state :=
     match fuel with
@@ -363,7 +373,8 @@ Section M.
       | CallU i =>
           match nth_error defs i with
           | None => (MErr CUndefFn, st)
-          | Some body => m_catch (fn_tag i) (m_seq (ev ((true, fn_tag i) :: sc) tb) body VNil st)
+          | Some (dc, body) =>             (* Lambda.Call: ss.parents = [closure, caller]; TagBody comes from the caller *)
+              m_catch (fn_tag i) (m_seq (ev ((true, fn_tag i) :: dc ++ sc) tb) body VNil st)
           end
       | Unless c body =>
           match ev sc tb c st with
